@@ -187,6 +187,17 @@ def equivalence(repo: Repo, chk: Check) -> None:
     chk.rule("C18.all-ops", "check_kernel_equivalence compares every op of both blocks pairwise (equal lengths, unfiltered strict zip, op type equality) and accepts only if all pairs agree", floor=3)
     trues = [s for s in fl.stmts(ast.Return) if s.reachable and isinstance(s.node.value, ast.Constant) and s.node.value.value is True]
     if not trues:
+        # a verdict that is itself a comparison of order-free summaries of the two blocks (multisets / sets / sorted lists of op types): (a + b) * c and
+        # a + b * c have the same summary
+        for s in [x for x in fl.stmts(ast.Return) if x.reachable and x.node.value is not None]:
+            v = fl.cone(s.node.value, s, inline=0)
+            bags = [c for c in ast.walk(v) if isinstance(c, ast.Call) and callee_name(c) in ("Counter", "set", "frozenset", "sorted") and any(
+                isinstance(n, ast.Attribute) and n.attr == "ops" for n in ast.walk(c))]
+            if isinstance(norm.primary(v), ast.Compare) and len(bags) >= 2:
+                chk.bad("C18.all-ops", f"{f.key}:pairwise", s.where(),
+                        f"the blocks are compared through `{callee_name(bags[0])}(..)` of their op types, irrespective of position: a body with the same op kinds in another "
+                        "order ((a + b) * acc against acc + a * b) is recognised as the kernel and replaced by it")
+                return
         raise AnalysisError(f"{f.where}: accepting return not found")
     for s in trues:
         okl = bool(has_fact(s, [f"len({a}.ops) == len({b}.ops)", f"len({b}.ops) == len({a}.ops)"]))
